@@ -285,11 +285,24 @@ def oracle_srs_error(case, R):
 def oracle_fdepsd(case, R):
     from pyyeti import fdepsd
     sig = make_signal(dict(case, ncol=1, onedim=True))
+    if case.get("two_events"):
+        # the same short transient twice, the second at an exact multiple of the first, quiet in between and no
+        # pre-processing: cycle amplitudes of the first event fall EXACTLY on bin boundaries of the amplitude grid
+        # (k/nbins of the largest), where serial and parallel must still count alike
+        n = int(case["n"])
+        ev = util.rng_of(case["seed"]).integers(-8, 9, 7).astype(float)
+        sig = np.zeros(max(n, 4000))
+        sig[100:107] = ev
+        h2 = len(sig) // 2
+        sig[h2:h2 + 7] = ev * float(case["two_events"])
+        R.label("sig:two_events")
     sr = case["sr"]
     freq = np.array(case["freq"], float)
     LF = len(freq)
     kw = dict(resp=case["resp"], nbins=case["nbins"], T0=case["T0"], hpfilter=case["hpfilter"],
               winends=case["winends"], verbose=False)
+    if case.get("two_events"):
+        kw.update(detrend=False, winends=None, hpfilter=None, rolloff="none")
     ser = fdepsd.fdepsd(sig, sr, freq, case["Q"], parallel="no", **kw)
     delays = delays_for(case, LF)
     par, order = run_patched(fdepsd, {"_dofde": _w_dofde}, LF, delays,
@@ -357,12 +370,16 @@ def fde_cases(draw):
     freq = sorted(set(round(draw(st.floats(8.0, 120.0)), 2) for _ in range(nf)))
     if len(freq) < 2:
         freq = [10.0, 50.0]
-    return {"n": draw(st.integers(400, 3000)), "sr": sr, "freq": freq, "Q": draw(st.sampled_from([10.0, 25.0])),
+    c = {"n": draw(st.integers(400, 3000)), "sr": sr, "freq": freq, "Q": draw(st.sampled_from([10.0, 25.0])),
             "resp": draw(st.sampled_from(["absacce", "pvelo"])), "nbins": draw(st.integers(5, 40)),
             "T0": draw(st.sampled_from([60.0, 10.0])), "hpfilter": draw(st.sampled_from([5.0, None])),
             "winends": draw(st.sampled_from(["auto", None])), "maxcpu": draw(st.sampled_from([2, 3, 8, None])),
             "delay": draw(st.sampled_from(["none", "reverse", "random", "straggler"])), "offset": 0.0,
-            "seed": draw(st.integers(0, 2 ** 31))}
+            "seed": draw(st.integers(0, 2 ** 31)),
+            "two_events": draw(st.sampled_from([None, None, 2.0, 4.0, 1.5, 3.0]))}
+    if c["two_events"]:
+        c["nbins"] = draw(st.sampled_from([4, 6, 8, 12, 24, 36, 300]))      # the level ratio lands on a bin boundary
+    return c
 
 
 def enum_grid(shard, nshards, tier):
@@ -386,7 +403,7 @@ PARTS = [
     Part("grid", oracle_srs, enum=enum_grid, quick=(16, None), thorough=(16, None), exhaustive=True),
     Part("srs", oracle_srs, strategy=srs_cases, quick=(8, 12), thorough=(16, 120)),
     Part("srs_error", oracle_srs_error, strategy=srs_cases, quick=(4, 6), thorough=(8, 40)),
-    Part("fdepsd", oracle_fdepsd, strategy=fde_cases, quick=(4, 4), thorough=(16, 30)),
+    Part("fdepsd", oracle_fdepsd, strategy=fde_cases, quick=(4, 8), thorough=(16, 40)),
     # documented defaults: leaving a keyword out = passing its documented value (vlib/defaults.py)
     Part("defaults", defaults.make_oracle("C09"), enum=defaults.make_enum(), quick=(1, None), thorough=(1, None),
          exhaustive=True),
